@@ -1,19 +1,22 @@
-\* leg A (quick): repaired design (prefer delivered reply; t.m section before closeOnce), code's retry policy
+\* leg A thorough (C08): 3 calls, retries
 SPECIFICATION Spec
 CONSTANTS
-  NCalls = 2
-  MaxDials = 2
+  NCalls = 3
+  MaxDials = 3
   Policy = "code"
   MaxRetry = 2
+  AttemptBound = 4
   RandomSelect = FALSE
   LockInOnce = FALSE
-  MaxFaults = 1
-  Kinds = {"eof", "silent"}
+  Dev = {}
+  MaxFaults = 2
+  Kinds = {"eof"}
   OrderedStart = TRUE
-  CancelCalls = {1}
-  EnvTClose = TRUE
+  CancelCalls = {}
+  EnvTClose = FALSE
   Coarse = TRUE
   WithHist = FALSE
 VIEW ViewNoHist
 INVARIANTS TypeOK FailOnlyWhen AttemptsBounded NoLoss ErrOnFault ClosedRejects CloseWakesAll ArmedIsShortWhenOwed OneAtATime IdleSound NoLockCycle
+
 CHECK_DEADLOCK FALSE
